@@ -15,7 +15,9 @@ EXTENDS Integers, Sequences, FiniteSets, TLC, Json, IOUtils, SequencesExt
 Methods == {"GET", "HEAD"}
 HostsK == {"h", "H", "h:80", "h2"}
 URIsK == {"/p", "/p/", "/P", "/p?x=1", "/p?x=2", "/p?x=1&y=2", "/p?y=2&x=1", "/p%2Fq", "/p/q", "/p?q=a%26b", "/p?q=a&b",
-          "/p?", "//p", "/p%3Fx=1", "/p?x=1%20", "/p?x=1+"}
+          "/p?", "//p", "/p%3Fx=1", "/p?x=1%20", "/p?x=1+",
+          (* two URIs of the same length above 1 kB that differ only in their last byte (the harness expands LONG to 1100 bytes) *)
+          "/p?tok=LONG&part=1", "/p?tok=LONG&part=2"}
 
 Triples == {[m |-> m, h |-> h, u |-> u] : m \in Methods, h \in HostsK, u \in URIsK}
 
